@@ -27,7 +27,7 @@ try:
 except ImportError:
     tqdm = None
 
-from emg3d import io, solver, utils
+from emg3d import io, solver, utils, electrodes
 
 
 def process_map(fn, *iterables, max_workers, **kwargs):
@@ -229,15 +229,25 @@ def layered(inp):
     method = lopts.pop('method')
     lopts['return_imat'] = True
 
+    # Source coordinates and strength for empymod. Dipoles defined by two
+    # points are given as (x1, x2, y1, y2, z1, z2); dipoles defined by a point
+    # and a length are point dipoles for empymod: take length into account.
+    src_coo = np.asarray(src.coordinates)
+    strength = src.strength
+    if src_coo.shape == (2, 3):
+        src_coo = src_coo.ravel('F')
+    elif src_coo.size == 5 and isinstance(src, electrodes.Dipole):
+        strength = strength*src.length
+
     # Collect rec-independent empymod options.
     empymod_opts = {
         # User input ({src;rec}pts, {h;f}t, {h;f}targ, xdirect, loop, verb).
         **empymod_opts,
         #
         # Source properties, same for all receivers.
-        'src': src.coordinates,
+        'src': src_coo,
         'msrc': src.xtype != 'electric',
-        'strength': src.strength,
+        'strength': strength,
         #
         # Enforced properties (not implemented).
         'signal': None,
